@@ -158,22 +158,21 @@ def parse_doc(text):
     return et_to_sx(root)
 
 
-# PrinterImpl::printMath: std::regex (ECMAScript) "<\\?xml[[:space:]]+version=.*\\?>": "." stops at line terminators,
-# ".*" is GREEDY (two declarations on one line: everything between them goes too)
-_DECL_GREEDY = re.compile("<\\?xml[ \t\n\r\v\f]+version=[^\n\r\u2028\u2029]*\\?>")
-_DECL_EXACT = re.compile("<\\?xml[ \t\n\r\v\f]+version=[^\n\r\u2028\u2029]*?\\?>")
+# PrinterImpl::printMath: std::regex (ECMAScript) "<\\?xml[[:space:]]+version=.*?\\?>": "." stops at line terminators,
+# ".*?" is NON-greedy since fixes/C02-xml-declaration-non-greedy.diff (each declaration goes on its own; the greedy
+# pattern took the mathematics between two declarations on one line along: finding C02-greedy-xml-declaration)
+_DECL = re.compile("<\\?xml[ \t\n\r\v\f]+version=[^\n\r\u2028\u2029]*?\\?>")
 
 
-def math_elems(s, greedy=True):
+def math_elems(s):
     """what printMath makes of a math string: the children of the wrapper element, text trimmed.
-    -> list of sxml texts, or None when the wrapped string is not well-formed.
-    greedy=False: the reference reading (each XML declaration removed on its own), used by the oracle on the ORIGINAL"""
+    -> list of sxml texts, or None when the wrapped string is not well-formed"""
     if isinstance(s, bytes):
         try:
             s = s.decode("utf-8")
         except UnicodeDecodeError:
             return None
-    s = (_DECL_GREEDY if greedy else _DECL_EXACT).sub("", s)
+    s = _DECL.sub("", s)
     try:
         root = ET.fromstring("<w>" + s + "</w>")
     except ET.ParseError:
@@ -191,11 +190,11 @@ def math_elems(s, greedy=True):
     return out
 
 
-def math_text(s, greedy=True):
+def math_text(s):
     """a math string read back from the library -> the text the model's [math_text] yields for the same elements"""
     if not s:
         return b""
-    el = math_elems(s, greedy)
+    el = math_elems(s)
     if el is None:
         return b"<<malformed>>" + (s if isinstance(s, bytes) else s.encode())
     return "".join(x + "\n" for x in el).encode()
@@ -395,7 +394,7 @@ def r15(tok):
     return repr(float("%.15g" % f))
 
 
-def dump_content(tree, round_numbers, greedy=True):
+def dump_content(tree, round_numbers):
     """dump.hpp tree -> canonical content: numbers through 15 digits (original side) or as read (re-parsed side),
     math normalised, linkage / same-other-orphan status and hasmodel dropped, unset order value ignored, sorted"""
     def go(x):
@@ -409,7 +408,7 @@ def dump_content(tree, round_numbers, greedy=True):
                 return (head, x[1])
             return (head, repr(float(r15(x[1]))) if round_numbers else repr(float(x[1])))
         if head in ("math", "testvalue", "resetvalue"):
-            return (head, math_text(_undq(x[1][1]), greedy))
+            return (head, math_text(_undq(x[1][1])))
         if head == "units" and len(x) == 3 and isinstance(x[1], tuple) and x[2] in ("linked", "unlinked", "foreign"):
             return ("units", go(x[1]))
         if head in ("var", "testvar"):
@@ -504,12 +503,6 @@ def classify_known(ctx, ent0):
         el = math_elems(ms)
         if el is None or any(not x.startswith(math_head) for x in el):
             ids.append("C02-non-mathml-math")
-            break
-    # C02-greedy-xml-declaration: two XML declarations on one line of a math string: the greedy regex of printMath
-    # takes everything between them, mathematics included
-    for ms in ent_math_strings(ent0):
-        if math_elems(ms, True) != math_elems(ms, False):
-            ids.append("C02-greedy-xml-declaration")
             break
     # C02-number-overflows-at-15-digits: a finite exponent / multiplier whose 15-digit text is beyond DBL_MAX
     for u in ent0[4]:
@@ -735,8 +728,7 @@ def evaluate(ctx, case, cpp_line, ml_line, names, stats):
     in_domain = valid or pb_fixed
     if in_domain:
         stats["in_domain"] += 1
-        # the ORIGINAL's mathematics read by the reference (every XML declaration removed on its own)
-        c0 = dump_content(dump_tree(d0), True, greedy=False)
+        c0 = dump_content(dump_tree(d0), True)
         c1 = dump_content(dump_tree(d1), False)
         fails = []
         if ci1:
@@ -761,9 +753,6 @@ def evaluate(ctx, case, cpp_line, ml_line, names, stats):
                 for k in known:
                     matched = k
                     break
-            if cls == "content" and "C02-greedy-xml-declaration" in known and dump_content(dump_tree(d0), True) == c1:
-                # read the printer's (greedy) way the original IS the re-parsed content: the loss is exactly that
-                matched = "C02-greedy-xml-declaration"
             if cls == "issues" and not pb_fixed and "C02-number-overflows-at-15-digits" in known \
                     and all(x in ("E:UNIT_ATTRIBUTE_MULTIPLIER_VALUE", "E:UNIT_ATTRIBUTE_EXPONENT_VALUE") for x in ci1):
                 matched = "C02-number-overflows-at-15-digits"
